@@ -74,7 +74,7 @@ func RunCheck(id, tier, overlayPath, repo string) int {
 			return 2
 		}
 	}
-	prog, err := chk.Load(chk.LoadOpts{Overlay: overlay})
+	prog, err := chk.LoadNormalised(chk.LoadOpts{Overlay: overlay}, dryRun(pr))
 	if err != nil {
 		return chk.FailLoad(id, tier, err)
 	}
@@ -91,7 +91,7 @@ func RunCheck(id, tier, overlayPath, repo string) int {
 		// second build configuration: the only constraint-tagged source pair of the
 		// module is arm/!arm (internal/safeconvert); every rule is re-decided there.
 		if overlay == nil {
-			armProg, err := chk.Load(chk.LoadOpts{GOARCH: "arm"})
+			armProg, err := chk.LoadNormalised(chk.LoadOpts{GOARCH: "arm"}, dryRun(pr))
 			if err != nil {
 				x := r.Rule("LOAD-ARM", "loader", "the tree must also load and type-check for linux/arm", 0)
 				x.Undecided("load-arm", "UNDECIDED "+err.Error())
@@ -295,6 +295,15 @@ func Explain(path string) int {
 	return RunCheck(v.Property, "quick", "", "")
 }
 
+// dryRun runs the rules of a property once on the un-normalised program, only to
+// record which functions they name (the anchors, which are never expanded).
+func dryRun(pr *Prop) func(*chk.Prog) {
+	return func(p *chk.Prog) {
+		r := chk.NewReport(pr.ID, "dry", p)
+		runSafely(pr.Run, p, r, "")
+	}
+}
+
 // Sweep loads the tree once and decides every property's quick rules against it. It is a
 // development aid for the seeded-change matrix (evidence goes to a scratch MLB_OUT, never /verif).
 func Sweep(repo string) int {
@@ -306,13 +315,20 @@ func Sweep(repo string) int {
 		os.Setenv("MLB_OUT", d)
 		defer os.RemoveAll(d)
 	}
-	prog, err := chk.Load(chk.LoadOpts{})
+	ids := IDs()
+	sort.Strings(ids)
+	prog, err := chk.LoadNormalised(chk.LoadOpts{}, func(p *chk.Prog) {
+		for _, id := range ids {
+			dryRun(props[id])(p)
+		}
+	})
 	if err != nil {
 		fmt.Println("LOAD-FAIL", err)
 		return 2
 	}
-	ids := IDs()
-	sort.Strings(ids)
+	if prog.Norm != nil {
+		fmt.Printf("NORMALISED rounds=%d expanded=%d removed=%d fallback=%q\n", prog.Norm.Rounds, len(prog.Norm.Expanded), len(prog.Norm.Removed), prog.Norm.Fallback)
+	}
 	rc := 0
 	for _, id := range ids {
 		pr := props[id]
